@@ -530,6 +530,9 @@ func runWorker(c *fw.Ctx) *fw.Stats {
 			w.doc(d)
 		}
 	})
+	w.level("documents:wide (14 member kinds as n equal neighbours in an array, a spaced array, an object, an array of pairs; n = 100 ... 65537 incl. 9999, 10000, 10001)", func() {
+		wideDocs(thorough, w.doc)
+	})
 	for n := 1; n <= maxTok; n++ {
 		n := n
 		f2 := forms
